@@ -48,6 +48,18 @@ CFG4 = {  # thorough: R_BC reached through two chains (two different parents of 
     },
     "particle": dict(CFG["particle"], R_BC2={"J": 2, "P": 1, "mass": 0.45, "width": 0.08}),
 }
+CFG5 = {  # 4-body cascade: the Decay object A -> X E is shared by both chains and carries two LS couplings
+    "data": {"dat_order": ["B", "C", "D", "E"]},
+    "decay": {"A": [["X", "E"]], "X": [["Y", "D"], ["Z", "C"]], "Y": ["B", "C"], "Z": ["B", "D"]},
+    "particle": {
+        "$top": {"A": {"J": 1, "P": -1, "mass": 5.0}},
+        "$finals": {"B": {"J": 0, "P": -1, "mass": 0.14}, "C": {"J": 0, "P": -1, "mass": 0.14},
+                    "D": {"J": 0, "P": -1, "mass": 0.14}, "E": {"J": 0, "P": -1, "mass": 0.5}},
+        "X": {"J": 1, "P": 1, "mass": 3.0, "width": 0.3},
+        "Y": {"J": 1, "P": -1, "mass": 0.5, "width": 0.1},
+        "Z": {"J": 2, "P": 1, "mass": 1.0, "width": 0.2},
+    },
+}
 CONF_KEYS = ["verif_c17_a", "verif_c17_b", "multi_gpus", "polar"]
 
 
@@ -63,7 +75,7 @@ def frac(x):
 class Model:
     """the implementation under test + the encoding of its state"""
 
-    def __init__(self, cfg, seed):
+    def __init__(self, cfg, seed, bound_name="R_BC_mass"):
         import numpy as np
         import tf_pwa.config as tcfg
         from tf_pwa.config_loader import ConfigLoader
@@ -85,15 +97,17 @@ class Model:
         self.res = [str(r) for r in self.amp.res]
         self.nch = len(self.dg.chains)
         # a bounded parameter (fit-space value differs from the physical one)
-        self.vm.set_bound({"R_BC_mass": (0.3, 0.7)})
+        self.bound_name = bound_name
+        self.vm.set_bound({bound_name: (0.3, 0.7)})
         rnd = random.Random(seed)
         self.init_vals = {}
         for n in self.names:
             v = float(self.vm.variables[n].numpy())
-            self.init_vals[n] = round(v * 1024) / 1024 if n != "R_BC_mass" else 0.5
+            self.init_vals[n] = round(v * 1024) / 1024 if n != bound_name else 0.5
         self.conf0 = {k: (tcfg.get_config(k) if k in CONF_KEYS[2:] else 0) for k in CONF_KEYS}
         np.random.seed(seed % (2 ** 32))
-        p = PhaseSpaceGenerator(1.0, [0.1, 0.1, 0.1]).generate(5)
+        top_mass = list(cfg["particle"]["$top"].values())[0]["mass"]
+        p = PhaseSpaceGenerator(top_mass, [cfg["particle"]["$finals"][f]["mass"] for f in cfg["data"]["dat_order"]]).generate(5)
         self.data = self.config.data.cal_angle(p)
         self.orig_sum_amp = self.dg.sum_amp
         self.reset(list(range(self.nch)))
@@ -164,9 +178,9 @@ def gen_blk(rnd, M, masked, allow_unsafe=False):
     dy = lambda: rnd.randrange(-96, 97) / 64.0
     if k in ("temp_params", "vm_temp_params", "mask_params"):
         names = rnd.sample(M.names, rnd.randrange(1, 4))
-        if rnd.random() < 0.5 and "R_BC_mass" not in names:
-            names[0] = "R_BC_mass"
-        d = {n: (0.3125 + rnd.randrange(0, 24) / 64.0 if n == "R_BC_mass" else dy()) for n in names}
+        if rnd.random() < 0.5 and M.bound_name not in names:
+            names[0] = M.bound_name
+        d = {n: (0.3125 + rnd.randrange(0, 24) / 64.0 if n == M.bound_name else dy()) for n in names}
         if k != "mask_params" and rnd.random() < 0.12:
             d["no_such_variable"] = 1.5  # set() warns; VarsManager.temp_params raises before changing anything
         return (k, d)
@@ -449,13 +463,15 @@ def state_diff(a, b):
 # ---------------------------------------------------------------- check
 
 
-def campaign(ctx, M, tag, progs, inits, rnd, max_pos):
+def campaign(ctx, M, tag, progs, inits, rnd, max_pos, pin=None, nfixed=None):
     """run every program with no injection and with an exception at (a sample of) every
     evaluation point; returns Coq cases + direct property failures"""
     prelude = ["Definition E_%s : env := %s." % (tag, c_env(M))]
     cases, meta, direct = [], {}, []
     for pi, p in enumerate(progs):
-        init = inits[pi % len(inits)] if pi >= len(FIXED_PROGS) else inits[0]
+        init = inits[pi % len(inits)] if pi >= (len(FIXED_PROGS) if nfixed is None else nfixed) else inits[0]
+        if pin and pi in pin:
+            init = pin[pi]
         base = run_impl(M, p, None, init)
         n = base[6]
         pos = list(range(n))
@@ -498,7 +514,8 @@ def run(ctx):
                 "temp_total_gls_one, temp_config) x read-only helpers (partial_weight both variants, partial_weight_interference, "
                 "cal_fitfractions(+_no_grad, 1-2 batches), FitFractions.append_int, factor_iteration loops) x user-code points; every program "
                 "is run without fault and with an exception injected at each evaluation point (user point or decay_group.sum_amp call; "
-                "sampled when > max_pos); initial chain selections full / partial / reordered / reached via set_used_res(name+index); "
+                "sampled when > max_pos); initial chain selections full / partial / reordered / reached via set_used_res(name+index); restricted histories whose "
+                "temporary selection names exactly the active chains plus an index; a 4-body cascade in which one Decay object is shared by two chains; "
                 "distinct = (program, injection point) with >= 2 evaluation points; one Coq obligation per run")
     common.theorem_stage(ctx)
     M = Model(CFG, ctx.seed + 17)
@@ -509,8 +526,35 @@ def run(ctx):
         p = gen_prog(rnd, M, rnd.choice([2, 3, 3, 4]), allow_unsafe=True)
         progs.append(p)
         ctx.count("temp_params_under_mask=%s" % ("no" if is_safe(p) else "yes"))
+    # history: the model is already restricted; the temporary selection names exactly the active chains plus an index
+    pin = {}
+    for init_idx, names, extra in (([0], ["R_BC"], [2]), ([2], ["R_CD"], [0]), ([0, 1], ["R_BC", "R_BD"], [2]), ([1, 2], ["R_BD", "R_CD"], [0]),
+                                   ([0], ["R_BC"], [1, 2])):
+        for prog in (("with", ("temp_used_res", names, extra), ("eval",)),
+                     ("helper", ("pw", [(names, extra)])),
+                     ("with", ("temp_used_res", names, extra), ("helper", ("pw", [(names, extra), ([], [1])])))):
+            pin[len(progs)] = (init_idx, None)
+            progs.append(prog)
     ctx.log("model A: %d chains, %d variables, %d programs" % (M.nch, len(M.names), len(progs)))
-    prelude, cases, meta, direct = campaign(ctx, M, "a", progs, inits, rnd, 10 if quick else 25)
+    prelude, cases, meta, direct = campaign(ctx, M, "a", progs, inits, rnd, 10 if quick else 25, pin=pin)
+    # cascade with a Decay object shared between chains (aliasing inside temp_total_gls_one's object list)
+    M5 = Model(CFG5, ctx.seed + 19, bound_name="Y_mass")
+    progs5 = [("with", ("gls_one",), ("eval",)),
+              ("with", ("gls_one",), ("with", ("gls_one",), ("eval",))),
+              ("with", ("gls_one",), ("helper", ("pw", None))),
+              ("fiter", ("with", ("gls_one",), ("eval",))),
+              ("with", ("temp_used_res", ["Y"], []), ("with", ("gls_one",), ("helper", ("interf",)))),
+              ("with", ("mask_params", {"Y_mass": 0.53125}), ("with", ("gls_one",), ("eval",)))]
+    n5 = len(progs5)
+    while len(progs5) < n5 + (10 if quick else 80):
+        progs5.append(gen_prog(rnd, M5, rnd.choice([2, 3, 3]), allow_unsafe=False))
+    inits5 = [([0, 1], None), ([1], None), ([1, 0], None), ([0], None)]
+    ctx.log("model C (cascade, shared decay): %d chains, %d variables, %d programs" % (M5.nch, len(M5.names), len(progs5)))
+    pl5, cs5, mt5, dr5 = campaign(ctx, M5, "c", progs5, inits5, rnd, 6 if quick else 15, nfixed=n5)
+    prelude += pl5
+    cases += cs5
+    meta.update(mt5)
+    direct += dr5
     if not quick:
         M4 = Model(CFG4, ctx.seed + 18)
         inits4 = [(list(range(4)), None), ([0, 2], None), ([3, 1], None), ([], ["R_BC", 3]), ([1], None)]
